@@ -317,10 +317,176 @@ theorem sections_nodup (idx resp : Bytes) (p m s : List (Bytes × Bytes))
     ((sectionsOf idx resp p m s).map (·.1)).Nodup := by
   unfold sectionsOf
   rcases hp with rfl | ⟨x, rfl⟩ <;> rcases hm with rfl | ⟨y, rfl⟩ <;> rcases hs with rfl | ⟨z, rfl⟩ <;>
+    dsimp only [List.map, List.append_nil, List.cons_append, List.nil_append] <;>
     decide
 
 theorem lengthsOf_eq (sections : List (Bytes × Bytes)) :
     lengthsOf sections = encodeHead 4 (sections.length * 2) ++
       (sections.map fun (s : Bytes × Bytes) => Spec.Sxg.tstr s.1 ++ encodeHead 0 s.2.length).flatten := rfl
+
+/-! ### the index -/
+
+/-- groups are never empty, and every member of a group is one of the entries that were added -/
+theorem groupByUrl_inv (Q : IndexEntry → Prop) (es : List IndexEntry) (acc : List (Bytes × List IndexEntry))
+    (hes : ∀ e ∈ es, Q e) (hacc : ∀ g ∈ acc, g.2 ≠ [] ∧ ∀ e ∈ g.2, Q e) :
+    ∀ g ∈ groupByUrl es acc, g.2 ≠ [] ∧ ∀ e ∈ g.2, Q e := by
+  induction es generalizing acc with
+  | nil => rw [groupByUrl]; exact hacc
+  | cons e rest ih =>
+    rw [groupByUrl]
+    have hrest : ∀ x ∈ rest, Q x := fun x hx => hes x (List.mem_cons_of_mem _ hx)
+    have he : Q e := hes e List.mem_cons_self
+    by_cases hc : acc.any (·.1 == e.url) = true
+    · rw [if_pos hc]
+      apply ih _ hrest
+      intro g hg
+      obtain ⟨⟨u, es0⟩, hg0, rfl⟩ := List.mem_map.mp hg
+      obtain ⟨h1, h2⟩ := hacc _ hg0
+      by_cases hu : (u == e.url) = true
+      · simp only [hu, if_true]
+        refine ⟨by simp, ?_⟩
+        intro x hx
+        rcases List.mem_append.mp hx with hx | hx
+        · exact h2 x hx
+        · rw [List.mem_singleton.mp hx]; exact he
+      · simp only [hu]
+        exact ⟨h1, h2⟩
+    · rw [if_neg hc]
+      apply ih _ hrest
+      intro g hg
+      rcases List.mem_append.mp hg with hg | hg
+      · exact hacc g hg
+      · rw [List.mem_singleton.mp hg]
+        refine ⟨by simp, ?_⟩
+        intro x hx
+        rw [List.mem_singleton.mp hx]; exact he
+
+/-- what a successful `Finalize` of a b2 index went through -/
+theorem finalizeIndex_b2 (entries : List IndexEntry) (idx : Bytes) (h : finalizeIndex .b2 entries = .ok (.ok idx)) :
+    (∀ g ∈ groupByUrl entries [], utf8Valid g.1 = true ∧ g.2.length ≤ 1) ∧
+    encodeMap ((groupByUrl entries []).map fun (g : Bytes × List IndexEntry) =>
+      (Bundle.tstr g.1, encodeArrayHeader 2 ++ (g.2.map fun e => encodeUint e.offset ++ encodeUint e.length).flatten)) = .ok idx := by
+  unfold finalizeIndex at h
+  dsimp only at h
+  by_cases h1 : (groupByUrl entries []).any (fun g => !utf8Valid g.1) = true
+  · rw [if_pos h1] at h
+    by_cases h2 : (BVer.b2 = BVer.b2 ∧ (groupByUrl entries []).any (fun g => decide (g.2.length > 1)) = true)
+    · rw [if_pos h2] at h; cases h
+    · rw [if_neg h2] at h; cases h
+  · rw [if_neg h1] at h
+    by_cases h2 : (groupByUrl entries []).any (fun g => decide (g.2.length > 1)) = true
+    · rw [if_pos h2] at h; cases h
+    · rw [if_neg h2] at h
+      constructor
+      · intro g hg
+        constructor
+        · cases hu : utf8Valid g.1 with
+          | true => rfl
+          | false =>
+            exfalso; apply h1
+            exact List.any_eq_true.mpr ⟨g, hg, by simp [hu]⟩
+        · apply Classical.byContradiction
+          intro hn
+          apply h2
+          exact List.any_eq_true.mpr ⟨g, hg, by simp; omega⟩
+      · cases hm : encodeMap ((groupByUrl entries []).map fun (g : Bytes × List IndexEntry) =>
+          (Bundle.tstr g.1, encodeArrayHeader 2 ++ (g.2.map fun e => encodeUint e.offset ++ encodeUint e.length).flatten)) with
+        | error e =>
+          exfalso
+          revert h
+          rw [hm]
+          intro h; cases h
+        | ok x =>
+          revert h
+          rw [hm]
+          intro h
+          injection h with h
+          injection h with h
+          rw [h]
+
+/-- the output has the layout demanded by `WellFormed` (all versions) -/
+theorem layout_eq (hd : Bytes) (sections : List (Bytes × Bytes)) (out : Bytes)
+    (ho : out = bodyOf hd sections ++ encodeBytes (beBytes 8 ((bodyOf hd sections).length + 9))) :
+    out = hd ++ bstr (encodeHead 4 (sections.length * 2) ++
+        (sections.map fun (s : Bytes × Bytes) => Spec.Sxg.tstr s.1 ++ encodeHead 0 s.2.length).flatten) ++
+      encodeHead 4 sections.length ++ (sections.map (·.2)).flatten ++ bstr (beBytes 8 out.length) := by
+  have hl : out.length = (bodyOf hd sections).length + 9 := by
+    rw [ho, List.length_append, footer_length]
+  rw [hl]
+  exact ho
+
+/-- the responses section and the entries after the loop of `WriteTo` -/
+theorem addExchanges_top (b : Bundle) (respBuf : Bytes) (entries : List IndexEntry)
+    (h : addExchanges b.exchanges (encodeArrayHeader b.exchanges.length) [] = .ok (respBuf, entries)) :
+    ∃ rs : List Bytes, IsResponses respBuf rs ∧ rs.length = b.exchanges.length ∧
+      b.exchanges.map (fun e => encodeResponse e.resp) = rs.map .ok ∧
+      entries.map (·.url) = b.exchanges.map (·.url) ∧
+      entries.map (·.variants) = b.exchanges.map (fun e => joinComma (rawValues e.resp.headers hVariants)) ∧
+      entries.map (·.variantKey) = b.exchanges.map (fun e => joinComma (rawValues e.resp.headers hVariantKey)) ∧
+      entries.map (fun e => (e.offset, e.length)) = locs (encodeHead 4 rs.length).length rs := by
+  have h' : addExchanges b.exchanges (encodeHead 4 b.exchanges.length ++ ([] : List Bytes).flatten) [] =
+      .ok (respBuf, entries) := by simpa [encodeArrayHeader] using h
+  obtain ⟨rs, new, h1, h2, h3, h4, h5, _, h7, h8, h9, h10⟩ := addExchanges_spec _ _ [] [] _ _ h' rfl
+  rw [List.nil_append] at h5 h4 h10
+  subst h5
+  refine ⟨rs, ⟨h2, by rw [h1]; exact h4⟩, h1, h3, h7, h8, h9, by rw [h1]; exact h10⟩
+
+theorem delimits_of_entry (respBuf : Bytes) (rs : List Bytes) (entries : List IndexEntry)
+    (hl : entries.map (fun e => (e.offset, e.length)) = locs (encodeHead 4 rs.length).length rs)
+    (e : IndexEntry) (he : e ∈ entries) : Delimits respBuf rs e.offset e.length := by
+  have : (e.offset, e.length) ∈ locs (encodeHead 4 rs.length).length rs := by
+    rw [← hl]; exact List.mem_map.mpr ⟨e, he, rfl⟩
+  obtain ⟨i, hi, h1, h2⟩ := mem_locs this
+  exact ⟨i, hi, h1, h2⟩
+
+theorem finalizeIndex_b2_isIndex (entries : List IndexEntry) (idx respBuf : Bytes) (rs : List Bytes)
+    (hl : entries.map (fun e => (e.offset, e.length)) = locs (encodeHead 4 rs.length).length rs)
+    (h : finalizeIndex .b2 entries = .ok (.ok idx)) : IsIndex .b2 idx respBuf rs := by
+  obtain ⟨hg, hm⟩ := finalizeIndex_b2 entries idx h
+  refine ⟨_, Sxg.encodeMap_isCanonical _ _ hm, ?_⟩
+  intro p hp
+  obtain ⟨⟨u, es⟩, hgm, rfl⟩ := List.mem_map.mp hp
+  obtain ⟨hu, hlen⟩ := hg _ hgm
+  obtain ⟨hne, hq⟩ := groupByUrl_inv (fun e => Delimits respBuf rs e.offset e.length) entries []
+    (delimits_of_entry respBuf rs entries hl) (by simp) _ hgm
+  refine ⟨⟨u, rfl, hu⟩, ?_⟩
+  cases es with
+  | nil => exact absurd rfl hne
+  | cons e rest =>
+    cases rest with
+    | nil =>
+      refine ⟨e.offset, e.length, hq e List.mem_cons_self, ?_⟩
+      simp [encodeArrayHeader, encodeUint]
+    | cons e2 rest2 => simp at hlen
+
+/-- (b) a bundle of version b2 that `WriteTo` emits without error is well-formed -/
+theorem write_b2_wellFormed (b : Bundle) (hv : b.version = .b2) (out : Bytes) (h : write b = .ok (.ok out))
+    (hlen : out.length < 2 ^ 64) : WellFormed .b2 out := by
+  obtain ⟨respBuf, entries, indexBytes, p, m, s, hd, h1, h2, h3, h4, h5, h6, ho⟩ := write_ok b out h
+  obtain ⟨rs, hrs, _, _, _, _, _, hl⟩ := addExchanges_top b respBuf entries h1
+  rw [hv] at h2
+  have hhd : hd = BVer.magic .b2 := by
+    unfold headOf at h6
+    rw [hv] at h6
+    injection h6 with h6
+    injection h6 with h6
+    exact h6.symm
+  have hp := primarySec_ok b p h3
+  have hm : m = [] := by
+    rcases manifestSec_ok b m h4 with hm | ⟨hm, _⟩
+    · exact hm
+    · rw [hv] at hm; cases hm
+  have hs := sigsSec_ok b s h5
+  refine ⟨BVer.magic .b2, sectionsOf indexBytes respBuf p m s, rs, rfl, ?_, hlen, ?_, ?_⟩
+  · rw [← hhd]; exact layout_eq hd _ out ho
+  · apply sections_nodup
+    · rcases hp with hp | ⟨_, hp⟩
+      · exact Or.inl hp
+      · exact Or.inr hp
+    · exact Or.inl hm
+    · exact hs
+  · refine ⟨indexBytes, p ++ m ++ s, respBuf, ?_, hrs, finalizeIndex_b2_isIndex entries indexBytes respBuf rs hl h2⟩
+    unfold sectionsOf
+    simp only [List.append_assoc, List.cons_append, List.nil_append]
 
 end WebPkg.Bundle
